@@ -18,6 +18,7 @@ def step (s : State) (toks : List String) : State × String :=
   | "resp" :: _ => (s, (MsgEmit.handle toks).getD "bad-op")
   | "rt" :: _ => (s, (MsgEmit.handle toks).getD "bad-op")
   | "tsnew" :: _ => (s, (MsgEmit.handle toks).getD "bad-op")
+  | "undec" :: _ => (s, (MsgEmit.handle toks).getD "bad-op")
   | "asm" :: _ => (s, "~")
   | _ => (s, "bad-op")
 
